@@ -184,11 +184,12 @@ fn main() {
             writeln!(w, "{}", em.stats.to_json()).unwrap();
         }
         "probe" => {
-            if args.len() != 3 {
+            if args.len() != 3 && args.len() != 4 {
                 usage();
             }
+            let stride: u64 = if args.len() == 4 { args[3].parse().unwrap_or_else(|_| usage()) } else { 1 };
             let text = read_input(&args[2]);
-            if let Err(e) = krp_harness::probe::run(&text, &mut w) {
+            if let Err(e) = krp_harness::probe::run(&text, stride, &mut w) {
                 eprintln!("krp-harness: {}", e);
                 std::process::exit(2);
             }
